@@ -427,7 +427,8 @@ func c49Count(m *c49Model) int {
 }
 
 // c49Enumerate runs every history of length 1..depth over alphabet (indices into all).
-func c49Enumerate(all []c49Op, alphabet []int, depth int, battery []int) *c49Acc {
+// The battery is applied after histories of length <= batteryDepth.
+func c49Enumerate(all []c49Op, alphabet []int, depth, batteryDepth int, battery []int) *c49Acc {
 	type task struct{ d, first int }
 	tasks := make(chan task, 1024)
 	total := c49NewAcc()
@@ -446,7 +447,11 @@ func c49Enumerate(all []c49Op, alphabet []int, depth int, battery []int) *c49Acc
 					for i := range idx {
 						hist[i] = alphabet[idx[i]]
 					}
-					c49RunOne(all, hist, battery, acc)
+					if t.d <= batteryDepth {
+						c49RunOne(all, hist, battery, acc)
+					} else {
+						c49RunOne(all, hist, nil, acc)
+					}
 					k := t.d - 1
 					for k >= 1 {
 						idx[k]++
@@ -502,8 +507,8 @@ func c49Histories(c *report.Check) {
 	if c.Thorough() {
 		dAll, dMut = 4, 5
 	}
-	a1 := c49Enumerate(all, allIdx, dAll, observers)
-	a2 := c49Enumerate(all, mutators, dMut, observers)
+	a1 := c49Enumerate(all, allIdx, dAll, 3, observers)
+	a2 := c49Enumerate(all, mutators, dMut, dMut, observers)
 	tot := c49NewAcc()
 	tot.merge(a1)
 	tot.merge(a2)
@@ -600,7 +605,7 @@ func c49(c *report.Check) {
 		samples = append(samples, s...)
 	}
 	c.Set("samples", samples)
-	c.Set("rule", fmt.Sprintf("(a) every history of length 1..%v over all %v operations {store 5 keys x 3 values, delete, load, exists, stat on the 5 keys %q; non-recursive list of %q; recursive list of %q}, each on a fresh ChordStorage over a fresh kv/memory KV, last step judged (prefixes are histories of their own) and then all %v observers applied and judged on the reached state; the same for every mutator-only history of length 1..%v; (b) every interleaving of length %v of {X.Lock (single Acquire attempt), X.Unlock, X.RenewLockLease, clock advance 0.6*TTL} over instances sharing one KV, see lock_rule; class = (operation, outcome, number of stored keys) / (event, outcome, lease state)",
+	c.Set("rule", fmt.Sprintf("(a) every history of length 1..%v over all %v operations {store 5 keys x 3 values, delete, load, exists, stat on the 5 keys %q; non-recursive list of %q; recursive list of %q}, each on a fresh ChordStorage over a fresh kv/memory KV, last step judged (prefixes are histories of their own) and, for lengths <= 3, all %v observers then applied and judged on the reached state; every mutator-only history of length 1..%v with last step and observer battery judged; (b) every interleaving of length %v of {X.Lock (single Acquire attempt), X.Unlock, X.RenewLockLease, clock advance 0.6*TTL} over instances sharing one KV, see lock_rule; class = (operation, outcome, number of stored keys) / (event, outcome, lease state)",
 		c.Coverage["history_depth_all_ops"], c.Coverage["history_ops_alphabet"], c49Keys, c49ListPrefixes, c49RecListPrefixes, c.Coverage["history_observer_battery_size"], c.Coverage["history_depth_mutators"], c.Coverage["lock_depth"]))
 	c.Assume("file-store reference: a flat map key->value; a directory exists iff a stored key lies below it; no key of the alphabet is a directory of another key; listing a missing directory may yield an empty list or fs.ErrNotExist; results of recursive listings, Modified times and the return value of deleting an absent key are not compared (statement silent)")
 	c.Assume("the empty value is stored as a non-nil zero-length slice")
